@@ -167,7 +167,7 @@ def cfun_event(mpmath, g, eid, f, lvl, p, z, w, mayraise):
 def function_events(chk, mpmath, g, start, n=None):
     r = g.r
     events, meta = [], {}
-    for k in range(n or chk.pick(200, 4000)):
+    for k in range(n or chk.pick(200, 2500)):
         p = r.choice([10, 24, 53, 53, 100, r.randint(9, 120)])
         f = r.choice(CENCL + CENCL + CREL)
         w = None
@@ -202,7 +202,7 @@ def main():
     g = gen.G(chk.seed * 1000003 + 15)
     r = g.r
     events, meta = [], {}
-    for i in range(chk.pick(500, 20000)):
+    for i in range(chk.pick(500, 8000)):
         p = r.choice([r.randint(2, 8), 10, 24, 53, 100])
         f = r.choice(["add", "sub", "mul", "mul", "div", "pow", "abs"])
         z, w = rect(g, p), rect(g, p)
